@@ -6,7 +6,7 @@ import itertools
 import random
 import re
 
-CLASSES = ['BS', 'BG', 'EN', 'AR', 'BL', 'HT', 'EV', 'DE', 'DA', 'JK', 'DB']
+CLASSES = ['BS', 'BG', 'EN', 'AR', 'BL', 'HT', 'EV', 'DE', 'DA', 'JK', 'DB', 'NL']
 VARIANTS = {
     'BS': ['-----BEGIN PGP SIGNED MESSAGE-----'],
     'BG': ['-----BEGIN PGP SIGNATURE-----'],
@@ -15,6 +15,7 @@ VARIANTS = {
            '-----END PGP SIGNATURE-----\t', '-----BEGIN PGP SIGNATURE----- ', '----------',
            '-----BEGIN PGP SIGNED MESSAGE-----\r'],
     'BL': ['', ' ', '\t', ' \t '],
+    'NL': ['\x00', ' \x00', '\x00 \x00', '\x00\t'],
     'HT': ['Hash: SHA512', 'iQEzBAEBCAAdFiEEgeEsFr2NzWC+GAhFE2iA5yp7E4QFAloCx+YACgkQE2iA5yp7',
            '=Zupm', 'Version: GnuPG v2', 'NotDashEscaped: You need GnuPG to verify this message',
            'Comment: DATA evil 1'],
@@ -44,6 +45,8 @@ def classify_line(line):
         return 'AR'
     if not line.strip():
         return 'BL'
+    if '\x00' in line and not line.strip(' \t\r\x00'):
+        return 'NL'     # NUL bytes and blanks only: blank for gpg, junk for str.split()
     if line.startswith('- '):
         rest = line[2:]
         if rest.startswith('-----') and rest.rstrip().endswith('-----'):
@@ -183,6 +186,9 @@ def random_manifest_text(rng, n=None):
             lines.append('%s %s %d SHA256 %064x' % (tag, name, rng.randrange(1000), rng.getrandbits(200)))
     if rng.random() < 0.3:
         lines.append('TIMESTAMP 2020-01-02T03:04:05Z')
+    if rng.random() < 0.35:
+        # a blank line among the entries (legal, and it is part of what gets signed)
+        lines.insert(rng.randrange(1, len(lines) + 1), rng.choice(['', '', ' ']))
     return ''.join(l + '\n' for l in lines)
 
 
@@ -199,7 +205,7 @@ def mutate_text(rng, text, other):
         lines.pop()
     k = rng.choice(['insert', 'delete', 'dup', 'move', 'ws_tail', 'ws_head', 'crlf_one', 'crlf_all',
                     'cr_mid', 'dash_add', 'dash_del', 'concat', 'concat_blank', 'flip_body',
-                    'flip_sig', 'none', 'blank_around', 'no_final_nl', 'swap', 'longline', 'longline', 'nul_tail', 'nul_tail'])
+                    'flip_sig', 'none', 'blank_around', 'no_final_nl', 'swap', 'longline', 'longline', 'nul_tail', 'nul_tail', 'nul_sep', 'nul_sep'])
     nl = True
     i = rng.randrange(len(lines)) if lines else 0
     if k == 'insert':
@@ -221,6 +227,15 @@ def mutate_text(rng, text, other):
         # test matches the terminator), str.split() keeps them inside the last word
         tail = rng.choice(['\x00', '\x00\x00 ', ' \x00', '\x00\t\x00'])
         lines[i] = (lines[i].rstrip(' \t') if rng.random() < 0.5 else lines[i]) + tail
+    elif k == 'nul_sep' and lines:
+        # the blank line that ends the armor headers replaced by a line holding NUL (and blanks) only: blank
+        # for gpg, which drops NUL with the trailing white space - not for str.strip()
+        try:
+            b = lines.index('-----BEGIN PGP SIGNED MESSAGE-----')
+            j = next(x for x in range(b + 1, len(lines)) if not lines[x].strip())
+            lines[j] = rng.choice(['\x00', ' \x00', '\x00 \x00', '\x00\t'])
+        except (ValueError, StopIteration):
+            pass
     elif k == 'ws_head' and lines:
         lines[i] = rng.choice([' ', '\t']) + lines[i]
     elif k == 'crlf_one' and lines:
@@ -316,6 +331,8 @@ def signed_records(args):
                     st = 1
                 elif st == 1 and c == 'BL':
                     st = 2
+                elif st == 1 and '\x00' in lines[j]:
+                    acls[j] = 'NL'      # any armor-header line holding NUL is refused like a NUL-only one
                 elif st == 2 and c == 'BG':
                     st = 3
                 elif st == 2 and len(lines[j].encode('utf8', 'surrogatepass')) > 16384:
